@@ -297,6 +297,7 @@ def check_C02(cx):
     n = 40 if quick else 400
     for name, c in big:
         random_runs(cx, name, c, n, policies=("window", "pct", "uniform"), sizes=NZ_SIZES)
+    stress_runs(cx, 200 if quick else 3000)
     return finish(cx)
 
 
@@ -641,6 +642,7 @@ def check_C09(cx):
     for name, c in [("lfcodec", cfg({"W1": W("MD", "MD"), "W2": W("MD"), "W3": W("MD")}, qsize=2, until=True)),
                     ("lfcodec-sync", cfg({"W1": W("MD", "MD"), "W2": W("MD"), "W3": W("MD")}, qsize=0))]:
         random_runs(cx, name, c, n, sizes=[x for x in NZ_SIZES if x <= 4096], traced=False, codec="lf")
+    stress_runs(cx, 200 if quick else 3000)
     return finish(cx)
 
 
